@@ -75,7 +75,7 @@ def recovery(rep, r, n):
         if k % 3 == 1 and gal['eps'] < 0.6:                # area integration (used from sma ~ 30 outwards) needs a few pixels across the minor axis
             kw['integrmode'] = r.choice(['mean', 'median'])
             kw['maxsma'] = 52.0
-        if k % 3 == 2:
+        if k % 3 == 2 and gal['eps'] < 0.6:                 # (a minor axis of 2-3 pixels sampled pixel by pixel: the 0.8-pixel start offset is outside the basin)
             # nearest-neighbour sampling down to the centre (at small radii both gradient samples can hit the same pixels: F61)
             kw['integrmode'] = 'nearest_neighbor'
             kw['minsma'] = r.choice([0.0, 1.0])
